@@ -32,7 +32,9 @@ HEADER = ("From Coq Require Import ZArith String List.\n"
 
 
 # ------------------------------------------------------------------ programs
-# stmt := ("say", text) | ("break",) | ("switch", var, [(label|"default", spelling, [stmt])]) | ("hard", var, begin, count, [(pre, post)])
+# stmt := ("say", text) | ("break",) | ("set", var, k) | ("call", fname)
+#       | ("switch", var, [(label|"default", spelling, [stmt])]) | ("hard", var, begin, count, [(pre, post)], [stmt] tail)
+# A case may carry "more": {fname: [stmt]} further user functions, "order": their source order (names, incl. "f")
 
 def cert_text(c):
     return "\n".join(f"{k}={v}" for k, v in c.items())
@@ -45,7 +47,10 @@ def score_of(src: str, cert):
     return (sel, obj)
 
 
-def render(stmts) -> str:
+HARD_PARAMS = ["idx", "jdx", "kdx", "mdx", "ndx"]      # a nested Hardcode.switch needs its own parameter name (textual substitution)
+
+
+def render(stmts, hdepth=0) -> str:
     out = []
     for s in stmts:
         if s[0] == "say":
@@ -56,14 +61,31 @@ def render(stmts) -> str:
             parts = []
             for lab, spell, body in s[2]:
                 head = "default:" if lab == "default" else f"case {spell}:"
-                parts.append(head + " " + render(body))
+                parts.append(head + " " + render(body, hdepth))
             out.append(f"switch({s[1]}) {{ " + " ".join(parts) + " }")
+        elif s[0] == "set":
+            out.append(f"{s[1]} = {s[2]};")
+        elif s[0] == "call":
+            out.append(f"{s[1]}();")
         elif s[0] == "hard":
-            body = " ".join(f'say "{pre}$idx{post}";' for pre, post in s[4])
-            out.append(f"Hardcode.switch({s[1]}, (idx)=>{{ {body} }}, count={s[3]}, begin_at={s[2]});")
+            prm = HARD_PARAMS[hdepth]
+            body = " ".join(f'say "{pre}${prm}{post}";' for pre, post in s[4])
+            tail = (" " + render(s[5], hdepth + 1)) if len(s) > 5 and s[5] else ""
+            out.append(f"Hardcode.switch({s[1]}, ({prm})=>{{ {body}{tail} }}, count={s[3]}, begin_at={s[2]});")
         else:
             raise ValueError(s)
     return " ".join(out)
+
+
+def functions_of_case(case):
+    """[(name, body)] in source order"""
+    more = case.get("more") or {}
+    order = case.get("order") or [FNAME] + list(more)
+    return [(n, case["prog"] if n == FNAME else more[n]) for n in order]
+
+
+def render_case(case) -> str:
+    return " ".join(f"function {n}() {{ {render(b)} }}" for n, b in functions_of_case(case))
 
 
 def coq_score(s):
@@ -83,9 +105,14 @@ def coq_stmts(stmts, cert) -> str:
                 l = "LDefault" if lab == "default" else f"LNum {coq_z(lab)}"
                 ents.append(f"({l}, {coq_stmts(body, cert)})")
             out.append(f"SSwitch {coq_score(score_of(s[1], cert))} {coq_list(ents)}")
+        elif s[0] == "set":
+            out.append(f"SSet {coq_score(score_of(s[1], cert))} {coq_z(s[2])}")
+        elif s[0] == "call":
+            out.append(f"SCall {coq_str(s[1])}")
         elif s[0] == "hard":
             tm = coq_list(f"({coq_str(a)}, {coq_str(b)})" for a, b in s[4])
-            out.append(f"SHard {coq_score(score_of(s[1], cert))} {coq_z(s[2])} {coq_z(s[3])} {tm}")
+            tail = coq_stmts(s[5] if len(s) > 5 else [], cert)
+            out.append(f"SHard {coq_score(score_of(s[1], cert))} {coq_z(s[2])} {coq_z(s[3])} {tm} {tail}")
     return coq_list(out)
 
 
@@ -104,14 +131,21 @@ class Ambiguous(Exception):
     pass
 
 
-def interpret(stmts, env, trace):
+def interpret(stmts, env, trace, funcs=None, depth=0):
     """What the program means: say -> trace; switch -> the body of the case whose label equals the value
-    (default body when there is none and a default is declared; otherwise nothing)."""
+    at the moment the switch is reached (default body when there is none and a default is declared;
+    otherwise nothing); `$x = k` changes env; `g()` runs the body of g."""
     for s in stmts:
         if s[0] == "say":
             trace.append(s[1])
         elif s[0] == "break":
             pass
+        elif s[0] == "set":
+            env[s[1]] = s[2]
+        elif s[0] == "call":
+            if depth > 20 or not funcs or s[1] not in funcs:
+                raise Ambiguous()
+            interpret(funcs[s[1]], env, trace, funcs, depth + 1)
         elif s[0] == "switch":
             v = env.get(s[1])
             v = 0 if v is None else v                   # an unset score reads as 0
@@ -120,15 +154,24 @@ def interpret(stmts, env, trace):
             if len(hits) > 1 or len(dfl) > 1:
                 raise Ambiguous()
             if hits:
-                interpret(hits[0], env, trace)
+                interpret(hits[0], env, trace, funcs, depth)
             elif dfl:
-                interpret(dfl[0], env, trace)
+                interpret(dfl[0], env, trace, funcs, depth)
         elif s[0] == "hard":
             v = env.get(s[1])
             v = 0 if v is None else v
             if s[2] <= v <= s[3]:
                 for pre, post in s[4]:
                     trace.append(f"{pre}{v}{post}")
+                if len(s) > 5:
+                    interpret(s[5], env, trace, funcs, depth)
+
+
+def meaning(case, env):
+    """trace of one call of f from env (env is not modified)"""
+    trace = []
+    interpret(case["prog"], dict(env), trace, dict(functions_of_case(case)))
+    return trace
 
 
 def expect_compiles(stmts, macro):
@@ -153,6 +196,12 @@ def expect_compiles(stmts, macro):
         elif s[0] == "hard":
             if s[2] > s[3] and not macro:
                 verdict = None
+            elif len(s) > 5 and s[5]:
+                v = expect_compiles(s[5], macro)
+                if v is False:
+                    return False
+                if v is None:
+                    verdict = None
     return verdict
 
 
@@ -168,6 +217,17 @@ def switch_vars(stmts, acc=None):
                 switch_vars(b, acc)
         elif s[0] == "hard":
             acc.setdefault(s[1], set()).update(range(s[2], s[3] + 1))
+            if len(s) > 5:
+                switch_vars(s[5], acc)
+        elif s[0] == "set":
+            acc.setdefault(s[1], set()).add(s[2])
+    return acc
+
+
+def case_vars(case):
+    acc = {}
+    for _n, b in functions_of_case(case):
+        switch_vars(b, acc)
     return acc
 
 
@@ -191,8 +251,8 @@ def value_grid(labels):
     return [None] + sorted(vals)
 
 
-def envs_for(prog, rng, cap=90):
-    vs = switch_vars(prog)
+def envs_for(case, rng, cap=90):
+    vs = case_vars(case)
     names = list(vs)
     if not names:
         return [{}]
@@ -228,13 +288,11 @@ def vm_trace(funcs, ns, fname, env, cert, pf):
 def run_twice_failure(case, funcs, rng, cert):
     """The function is called twice in the same world (scores and storage persist): a flag or temp score
     left over from the first call must not change what the second call does."""
-    envs = envs_for(case["prog"], rng, cap=40)
+    envs = envs_for(case, rng, cap=40)
     pairs = [(rng.choice(envs), rng.choice(envs)) for _ in range(12)]
     for e1, e2 in pairs:
-        exp = []
         try:
-            interpret(case["prog"], e1, exp)
-            interpret(case["prog"], e2, exp)
+            exp = meaning(case, e1) + meaning(case, e2)
         except Ambiguous:
             return None
         vm = VM(funcs, ns=case["ns"], max_steps=40000)
@@ -259,10 +317,9 @@ def semantic_failure(case, funcs, rng):
     cert = CERTS[case["cert"]]
     try:
         f2 = None
-        for env in envs_for(case["prog"], rng):
-            exp = []
+        for env in envs_for(case, rng):
             try:
-                interpret(case["prog"], env, exp)
+                exp = meaning(case, env)
             except Ambiguous:
                 return None
             try:
@@ -305,8 +362,9 @@ CFG_MAIN = [(15, False), (48, False), (48, True)]
 def gen_cases(rng, tier):
     cases = []
 
-    def add(prog, pf, fb, stream, cert=0, ns=0, dup=False):
-        cases.append(dict(prog=prog, pf=pf, fb=fb, stream=stream, cert=cert, ns=NAMESPACES[ns], dup=dup))
+    def add(prog, pf, fb, stream, cert=0, ns=0, dup=False, more=None, order=None):
+        cases.append(dict(prog=prog, pf=pf, fb=fb, stream=stream, cert=cert, ns=NAMESPACES[ns], dup=dup,
+                          more=more, order=order))
 
     # (A) exhaustive small: every start label x every size, both strategies (+ forced bst at 48)
     for lo in (-5, -1, 0, 1, 7):
@@ -429,6 +487,92 @@ def gen_cases(rng, tier):
         48, False, "G-block-first")
     add([("switch", "$x", [(4, "4", [inner("a")]), ("default", "default", [inner("d"), ("say", "after d")]),
                             (9, "9", says("n"))])], 48, False, "G-block-first")
+    # (H) strengthening round 2: two switches on the SAME score, the inner one reached from inside a case body of
+    #     the outer one (inline / through a called function / Hardcode.switch on either side), the body changing the
+    #     score first: every switch needs a temp score of its own (C06_bst_exact's frame hypothesis), and the value
+    #     tested is the one at the moment the switch is reached.  Not the known finding C06-bst-reentrant: no
+    #     switch is re-entered here, the programs are not recursive.
+    def sw(var, lo, n, tag, bodies=None, default=False):
+        ents = []
+        for l in range(lo, lo + n):
+            ents.append((l, str(l), (bodies or {}).get(l, says(f"{tag} {l}") + ([("break",)] if l % 2 else []))))
+        if default:
+            ents.append(("default", "default", says(f"{tag} dflt")))
+        return ("switch", var, ents)
+
+    def same_score(var, lo, n, t, w, inner_kind, outer_kind, inner_n=None, inner_lo=None, default=False):
+        """outer dispatch on var over lo..lo+n-1; the body of case t says, sets var = w and reaches the inner
+        dispatch on var.  -> (prog, more, order)"""
+        inner_n = inner_n or n
+        inner_lo = lo if inner_lo is None else inner_lo
+        inner_sw = sw(var, inner_lo, inner_n, "inner", default=default and inner_kind != "hard")
+        inner_hard = ("hard", var, inner_lo, inner_lo + inner_n - 1, [("inner ", "")])
+        more, order = None, None
+        if inner_kind == "inline":
+            reach = [inner_sw]
+        elif inner_kind == "hard":
+            reach = [inner_hard]
+        elif inner_kind in ("call", "call_before", "call_hard"):
+            reach = [("call", "g")]
+            more = {"g": [inner_hard if inner_kind == "call_hard" else inner_sw]}
+            order = ["g", FNAME] if inner_kind == "call_before" else [FNAME, "g"]
+        elif inner_kind == "call_twice":           # g is also called at top level, before the outer switch
+            reach = [("call", "g")]
+            more = {"g": [inner_sw]}
+            order = [FNAME, "g"]
+        elif inner_kind == "none":                 # the body only changes the score
+            reach = []
+        else:
+            raise ValueError(inner_kind)
+        tbody = [("say", f"outer {t}"), ("set", var, w)] + reach + [("say", f"outer {t} end")]
+        if outer_kind == "switch":
+            outer = sw(var, lo, n, "outer", bodies={t: tbody + [("break",)]}, default=default)
+            prog = [outer]
+        else:                                      # Hardcode.switch outside: every index has the same tail
+            outer = ("hard", var, lo, lo + n - 1, [("outer ", "")], [("set", var, w)] + reach + [("say", "outer end")])
+            prog = [outer]
+        if inner_kind == "call_twice":
+            prog = [("call", "g")] + prog
+        return prog + [("say", "after")], more, order
+
+    hi = 0
+    for var in ("$state", "obj:@s"):
+        for pf, fb in CFG_MAIN:
+            macro = is_macro(pf, fb)
+            for inner_kind in ("inline", "call", "call_before", "hard", "call_hard", "call_twice", "none"):
+                for outer_kind in ("switch", "hard"):
+                    for (lo, n, t, w) in ((1, 3, 1, 3), (1, 3, 3, 1), (1, 4, 2, 4), (0, 2, 0, 1), (-2, 5, -1, 2),
+                                          (1, 3, 2, 7), (5, 1, 5, 5), (1, 8, 3, 6)):
+                        hi += 1
+                        if tier == "quick" and var != "$state" and hi % 3:
+                            continue
+                        if outer_kind == "hard" and inner_kind in ("inline", "hard") and n > 4:
+                            continue
+                        prog, more, order = same_score(var, lo, n, t, w, inner_kind, outer_kind,
+                                                       inner_n=(n if hi % 2 else n + 1), inner_lo=(lo if hi % 4 else lo - 1),
+                                                       default=macro and hi % 2 == 0)
+                        add(prog, pf, fb, f"H-same-score-{outer_kind}-{inner_kind}", cert=hi % 2, ns=(hi // 2) % 2,
+                            more=more, order=order)
+    # two and three levels: outer -> g -> h, every level switching on the same score and changing it
+    for pf, fb in CFG_MAIN:
+        for (a1, a2) in ((2, 3), (3, 1), (1, 1)):
+            h = [sw("$state", 1, 3, "h")]
+            g = [sw("$state", 1, 3, "g", bodies={a1: [("say", f"g {a1}"), ("set", "$state", a2), ("call", "h"), ("say", "g end")]})]
+            f = [sw("$state", 1, 3, "f", bodies={1: [("say", "f 1"), ("set", "$state", a1), ("call", "g"), ("say", "f end"), ("break",)]}),
+                 ("say", "after")]
+            add(f, pf, fb, "H-same-score-three-levels", more={"g": g, "h": h}, order=[FNAME, "g", "h"])
+            add(f, pf, fb, "H-same-score-three-levels", more={"g": g, "h": h}, order=["h", "g", FNAME], cert=1)
+        # sequence in one body: switch, change, switch again (same score), then the enclosing tree goes on
+        for (t, w) in ((1, 2), (2, 3), (3, 3)):
+            body = [("say", "in"), sw("$state", 1, 3, "first"), ("set", "$state", w), sw("$state", 1, 3, "second")]
+            add([sw("$state", 1, 3, "outer", bodies={t: body}), ("say", "after")], pf, fb, "H-same-score-sequence")
+        # siblings: two switches on the same score one after the other, the first one's case body changing the score
+        for (t, w) in ((1, 2), (2, 1), (3, 3), (1, 3)):
+            first = sw("$state", 1, 3, "first", bodies={t: [("say", f"first {t}"), ("set", "$state", w), ("break",)]})
+            add([first, sw("$state", 1, 3, "second"), ("say", "after")], pf, fb, "H-same-score-siblings")
+            add([first, ("hard", "$state", 1, 3, [("second ", "")]), ("say", "after")], pf, fb, "H-same-score-siblings", cert=1)
+            add([("call", "g"), sw("$state", 1, 3, "second"), ("say", "after")], pf, fb, "H-same-score-siblings",
+                more={"g": [first]}, order=[FNAME, "g"])
     if tier == "thorough":
         for n in (127, 128, 129, 255, 257):
             for pf, fb in CFG_MAIN:
@@ -440,7 +584,7 @@ def gen_cases(rng, tier):
 
 def job_of(case):
     cert = CERTS[case["cert"]]
-    src = f"function {FNAME}() {{ {render(case['prog'])} }}"
+    src = render_case(case)
     job = dict(src=src, cert=cert_text(cert), namespace=case["ns"])
     if case["pf"] != -1:
         job["pack_format"] = case["pf"]
@@ -474,8 +618,9 @@ def case_term(case):
         real = "RFiles " + coq_list(f"({coq_str(k)}, {coq_str(v)})" for k, v in case["funcs"].items())
     else:
         real = f"RError {coq_str(case['res']['exc'])}"
-    return (f"mkCase {names_term(cert, case['ns'])} (mkCfg {coq_z(case['pf'])} {coq_bool(case['fb'])}) {coq_str(FNAME)} "
-            f"{coq_stmts(case['prog'], cert)} ({real})")
+    funcs = coq_list(f"({coq_str(n)}, {coq_stmts(b, cert)})" for n, b in functions_of_case(case))
+    return (f"mkCase {names_term(cert, case['ns'])} (mkCfg {coq_z(case['pf'])} {coq_bool(case['fb'])}) "
+            f"{funcs} ({real})")
 
 
 def compile_cases(cases):
@@ -503,9 +648,21 @@ def shrink_candidates(prog):
                             if body == nb:
                                 continue
                         yield stmts[:i] + [("switch", s[1], ents[:j] + [(lab, sp, nb)] + ents[j + 1:])] + stmts[i + 1:]
+            elif s[0] == "hard" and len(s) > 5 and s[5]:
+                for nb in stmts_variants(s[5]):
+                    yield stmts[:i] + [s[:5] + (nb,)] + stmts[i + 1:]
     for v in stmts_variants(prog):
         if v and v != prog:
             yield v
+
+
+def shrink_case_candidates(case):
+    """smaller cases: the main function shrunk, or one of the other functions shrunk"""
+    for v in shrink_candidates(case["prog"]):
+        yield dict(case, prog=v)
+    for n, b in (case.get("more") or {}).items():
+        for v in shrink_candidates(b):
+            yield dict(case, more={**case["more"], n: v})
 
 
 def minimise(case, fail, rng, budget=60):
@@ -514,11 +671,10 @@ def minimise(case, fail, rng, budget=60):
     improved = True
     while improved and budget > 0:
         improved = False
-        for cand in shrink_candidates(best["prog"]):
+        for c in shrink_case_candidates(best):
             if budget <= 0:
                 break
             budget -= 1
-            c = dict(best, prog=cand)
             try:
                 compile_cases([c])
             except Exception:  # noqa
@@ -532,7 +688,14 @@ def minimise(case, fail, rng, budget=60):
 
 def case_failure(c, rng):
     """The failure (or None) of one compiled case against the source-level meaning."""
-    must = expect_compiles(c["prog"], is_macro(c["pf"], c["fb"]))
+    must = True
+    for _n, b in functions_of_case(c):
+        v = expect_compiles(b, is_macro(c["pf"], c["fb"]))
+        if v is False:
+            must = False
+            break
+        if v is None:
+            must = None
     if not c["res"]["ok"]:
         if not c["res"].get("jmc") and must is not None:
             return dict(kind="compiler-crash", exc=c["res"]["exc"], msg=c["res"]["msg"][:300])
@@ -552,7 +715,8 @@ def case_failure(c, rng):
 
 def replay_obj(case, fail, kind="semantic-failure"):
     return dict(kind=kind, job=job_of(case), cert_index=case["cert"], namespace=case["ns"], pack_format=case["pf"],
-                forcebst=case["fb"], program=case["prog"], stream=case["stream"], failure=fail,
+                forcebst=case["fb"], program=case["prog"], more=case.get("more"), order=case.get("order"),
+                stream=case["stream"], failure=fail,
                 emitted=case.get("funcs"), compile_result=None if case["res"]["ok"] else case["res"],
                 how="compile `job` with harness/jmc_run.py, run function <ns>:f in harness/mcvm.py from the scores in "
                     "failure.env (None = unset); expected = source-level meaning of the program")
@@ -638,7 +802,7 @@ def main(tier: str) -> int:
     for i, f in sem_fail.items():
         c = cases[i]
         key = (c["stream"], f["kind"], is_macro(c["pf"], c["fb"]))
-        if key in reported:
+        if key in reported or len(reported) >= 6:
             continue
         reported.add(key)
         c2, f2 = minimise(c, f, ck.rng)
@@ -668,7 +832,8 @@ def main(tier: str) -> int:
         hist[c["stream"]] = hist.get(c["stream"], 0) + 1
         k = ("macro" if is_macro(c["pf"], c["fb"]) else "bst") + ("" if c["res"]["ok"] else ":rejected")
         strat[k] = strat.get(k, 0) + 1
-    distinct = len({json.dumps([c["prog"], c["pf"], c["fb"], c["cert"], c["ns"]], sort_keys=True) for c in cases})
+    distinct = len({json.dumps([c["prog"], c.get("more"), c.get("order"), c["pf"], c["fb"], c["cert"], c["ns"]], sort_keys=True)
+                    for c in cases})
     ck.cov.update(dict(
         evaluations=len(cases), distinct_nontrivial=distinct,
         rule="a case = one compiled program (function f containing switch / Hardcode.switch statements); distinct = distinct "
@@ -729,14 +894,13 @@ def replay(path) -> int:
         return 1
     funcs = real_functions(r["files"], obj["namespace"], cert)
     env = fail.get("env", {})
-    exp = []
-    prog = json.loads(json.dumps(obj["program"]))
-    prog = tuplify(prog)
-    interpret(prog, env, exp)
+    rcase = dict(prog=tuplify(obj["program"]), more={n: tuplify(b) for n, b in (obj.get("more") or {}).items()},
+                 order=obj.get("order"))
+    exp = meaning(rcase, env)
     try:
         if "env_second_call" in fail:
             e2 = fail["env_second_call"]
-            interpret(prog, e2, exp)
+            exp = exp + meaning(rcase, e2)
             vm = VM(funcs, ns=obj["namespace"], max_steps=40000)
             for e in (env, e2):
                 for var, v in e.items():
@@ -764,7 +928,7 @@ def tuplify(stmts):
         if s[0] == "switch":
             out.append(("switch", s[1], [(l, sp, tuplify(b)) for l, sp, b in s[2]]))
         elif s[0] == "hard":
-            out.append(("hard", s[1], s[2], s[3], [tuple(p) for p in s[4]]))
+            out.append(("hard", s[1], s[2], s[3], [tuple(p) for p in s[4]]) + ((tuplify(s[5]),) if len(s) > 5 else ()))
         else:
             out.append(tuple(s))
     return out
